@@ -1,6 +1,6 @@
 (* Correspondence for C28: one application of a (possibly tampered) change set by the real
    Block.ApplyBlockStateChange, with trie nodes abstracted to (hash id, child hash ids). *)
-From ZC Require Import Base.Corr Model.StateChange.
+From ZC Require Import Base.Corr Model.StateChange Gen.StateChangeApply Proof.StateChangeSrc.
 From Coq Require Import ZArith.
 Open Scope Z_scope.
 
@@ -9,6 +9,7 @@ Definition scc_node : Type := (Z * list Z)%type.
 Inductive scc_out := SoOk | SoNoChange | SoErr (e : sc_err) | SoOther.
 
 Record scc_case := {
+  scc_local : list scc_node;  (* nodes of the previous state the new nodes may refer to *)
   scc_block : sc_block Z Z;
   scc_change : sc_change scc_node Z Z;
   scc_computed : bool;        (* ComputeProperties was run on the change set (the decode path) *)
@@ -26,8 +27,8 @@ Definition scc_err_eqb (a b : sc_err) : bool :=
 Definition scc_check (c : scc_case) : bool :=
   let res :=
     if scc_computed c
-    then sc_sync scc_node Z Z Z.eqb Z.eqb fst snd [] (scc_block c) (scc_change c)
-    else sc_apply scc_node Z Z Z.eqb Z.eqb [] (scc_block c) (scc_change c) false in
+    then sc_sync_src scc_node Z Z Z.eqb Z.eqb fst snd (scc_local c) (scc_block c) (scc_change c)
+    else sc_apply scc_node Z Z Z.eqb Z.eqb (scc_local c) (scc_block c) (scc_change c) false in
   match res, scc_status c with
   | ScOk _ r, SoOk => Z.eqb r (scc_root c)
   | ScNoChange, SoNoChange => true
